@@ -44,7 +44,7 @@ CHECK = {'rule': 'four rapid-generated case kinds plus one exhaustive part. maps
                               'load:base-subdir',
                               'load:files=1',
                               'load:files=9-40',
-                              'load:keys>512', 'config:application-boot:env-by-args', 'config:application-boot:env-by-params', 'config:application-boot:env-by-default',
+                              'load:keys>512', 'load:store-held-older-values-of-some-keys', 'load:injected-io-failure-reported', 'config:application-boot:env-by-args', 'config:application-boot:env-by-params', 'config:application-boot:env-by-default',
                               'config:read',
                               'config:write-read'],
                       'thorough': ['kind:maps',
